@@ -194,7 +194,8 @@ DoStepK(r, trusted, span) ==
               ELSE IF ~isEnv /\ a = "sweeper" /\ r.next = "K_DelKw"
               THEN [A0 EXCEPT !.lc[a].id = r.narg]
               ELSE A0
-     /\ gh' = IF hugeCfg THEN gh ELSE
+     /\ gh' = IF hugeCfg THEN (IF r.site = "K_Update" THEN [gh EXCEPT !.loose = TRUE] ELSE gh)   \* (marks: a weight update ran, D2 may apply)
+              ELSE
               LET g == GhostNext(gh, st, a, r.site, pred'.inp, st', Obs(r, isEnv \/ known, isEnv \/ (known /\ pred'.st.pc[a] = r.next)))
               IN IF span /\ ~trusted THEN [g EXCEPT !.loose = TRUE] ELSE g
      /\ rep' = LET A == st'
@@ -206,7 +207,14 @@ DoStepK(r, trusted, span) ==
                           \/ r.op.w >= Huge \/ r.op.ttl >= 1000000 \/ r.op.ttl_ns # 0   \* (the model's clock has whole seconds)
                           \/ (a \in DOMAIN st.lc /\ (st.lc[a].w >= Huge \/ st.lc[a].cmd.ttl >= 1000000 \/ st.lc[a].cmd.w >= Huge \/ st.lc[a].exp >= 1000000))
                    div == IF (isEnv \/ known) /\ ~oor /\ ~gh.loose THEN DivFields(pred'.st, A, r, pred'.ret) ELSE {}   \* (loose: the locals are stale)
-                   newV == IF hugeCfg THEN J_C17(st, a, r.site, pred'.inp, A, Obs(r, FALSE, FALSE), gh, gh') ELSE
+                   newV == IF hugeCfg
+                           THEN J_C17(st, a, r.site, pred'.inp, A, Obs(r, FALSE, FALSE), gh, gh')
+                                \* the bound itself, from the harness's exact 64-bit comparison (no weight update has run: D2 cannot explain it)
+                                \o (IF r.s.over /\ ~gh'.loose /\ ~A.shut
+                                    THEN <<[prop |-> "C01", kind |-> "violation", finding |-> "", what |-> "total weight used exceeds the cache weight (cache weight near the top of the 64-bit range)"]>> ELSE <<>>)
+                                \o (IF r.s.neg /\ ~A.shut
+                                    THEN <<[prop |-> "C01", kind |-> "violation", finding |-> "", what |-> "total weight used is negative (cache weight near the top of the 64-bit range)"]>> ELSE <<>>)
+                           ELSE
                            Judge(st, a, r.site, pred'.inp, A, Obs(r, isEnv \/ known, isEnv \/ (known /\ pred'.st.pc[a] = r.next)), gh, gh')
                IN [rep EXCEPT
                      !.steps = @ + 1,
